@@ -43,7 +43,7 @@ LEVEL_NOTE = ("Trusted: Lean kernel; the concrete key of Drivers/Intern.lean (de
 
 IMPL = [os.path.join(BUILD, "hgv_intern")]
 VALUE_DEFS = {"f1": (1, "ts"), "g1": (1, "ts"), "f2": (2, "ts"), "g2": (2, "ts"), "t1": (1, "tsl")}
-SINK_DEFS = {"k1": (1, "ts"), "k2": (2, "ts")}
+SINK_DEFS = {"k0": (0, "ts"), "k1": (1, "ts"), "k2": (2, "ts")}
 SRC_TYPES = {"s": "ts", "p": "tsl", "b": "tsb", "e": "tse"}
 
 
@@ -92,7 +92,7 @@ def parse_decl(line):
     w = line.split()
     if len(w) == 4 and w[0] == "src" and w[2] in SRC_TYPES and w[3].isdigit():
         return dict(op="src", lbl=w[1], d=w[2], k=int(w[3]), ins=[])
-    if len(w) >= 5 and w[0] in ("node", "sink") and w[3].isdigit():
+    if len(w) >= 4 and w[0] in ("node", "sink") and w[3].isdigit():
         defs = VALUE_DEFS if w[0] == "node" else SINK_DEFS
         if w[2] not in defs or len(w) != 4 + defs[w[2]][0]:
             return None
